@@ -45,10 +45,27 @@ inductive BodyD where
   | union
   deriving Inhabited
 
+/-- `syn::TypeParam` as an input element -/
+structure TypeParamD where
+  ident : String
+  attrs : List Attr
+  bounds : List String          -- printed bounds
+  default : Option String       -- printed default type
+  toks : String := ""           -- the whole parameter, printed
+  deriving Inhabited
+
+/-- `syn::GenericParam` -/
+inductive GParamD where
+  | type (t : TypeParamD)
+  | lifetime (toks : String)
+  | const (toks : String)
+  deriving Inhabited
+
 structure GenericsD where
   typeParams : List String := []
   toks : String := ""           -- printed `<…>`
   whereToks : String := ""      -- printed where-clause
+  params : List GParamD := []   -- every parameter, in source order
   deriving Inhabited
 
 structure DeclD where
@@ -57,14 +74,6 @@ structure DeclD where
   generics : GenericsD := {}
   attrs : List Attr
   body : BodyD
-  deriving Inhabited
-
-/-- `syn::TypeParam` as an input element -/
-structure TypeParamD where
-  ident : String
-  attrs : List Attr
-  bounds : List String          -- printed bounds
-  default : Option String       -- printed default type
   deriving Inhabited
 
 namespace Style
